@@ -243,10 +243,11 @@ class Observer:
         cols = {}
         psizes = None
         nmax = None
+        # column of each disk: the recorded map where the disk is recorded (a disk without files is not), else
+        # the configuration order (data disks are listed in column order by the driver)
+        cols = {str(d): d for d in range(self.a.conf.nd)}
         if good:
-            cols = {d: col for d, col in good[0]["cols"].items()}
+            cols.update({d: col for d, col in good[0]["cols"].items() if not d.startswith("x")})
             psizes = good[0]["psize"]
-        else:
-            cols = {str(d): d for d in range(self.a.conf.nd)}
         par = self.project_parity(cols, psizes, nmax)
         return {"fs": fs, "cont": cont, "par": par}
